@@ -44,9 +44,9 @@ CLAIMS = {
                 note="Proof level holds for event assembly only. In the kernels the float pipeline (Cholesky/argmin unwraps, partial_cmp, NaN asserts) is a census of undecided sites, and 63 integer/index sites in 19 kernel functions (loop-carried indices, table-shape dependent lookups, values flowing through local collections) are undecided by this analysis: no panic-freedom claim is made for avalanches()/vertex().",
                 technique="abstract interpretation of MIR (guard atoms + interval/Fourier-Motzkin prover) with constructor-census type invariants; per-function obligation census for the kernels; dominating-guard comparison for the centroid"),
     "C10": dict(level="other", design="§5 C10",
-                text="Dataflow-shape rules on try_from_banks: slot index term = position map of the packet's own (board,channel)/(board,chip,channel); name/payload agreement guards; duplicate guards dominate stores; calibration expression (elem - baseline) * gain after skip(delay) with same-kind lookups at the same position; bank-kind action table; TRG timestamp pass-through.",
+                text="Dataflow-shape rules on try_from_banks: slot index term = position map of the packet's own (board,channel)/(board,chip,channel); name/payload agreement guards; duplicate guards dominate stores; calibration expression (elem - baseline) * gain after skip(delay) with same-kind lookups at the same position; bank-kind action table; TRG timestamp pass-through; call-graph rule on the 11 lazy calibration tables (no table initialiser reads another table, so an element missing from a run's file stays unavailable).",
                 note="Numerical equality of samples follows from the expression shape and IEEE arithmetic (not separately analysed); calibration file contents trusted.",
-                technique="symbolic def-use terms + dominance on the event-assembly function"),
+                technique="symbolic def-use terms + dominance on the event-assembly function; resolved call graph of the calibration table initialisers"),
     "C11": dict(level="other", design="§5 C11",
                 text="Census of every iteration over std HashMap/HashSet in the workspace classified by sink (commutative vs order-leaking; slot stores inside such a loop must be test-and-set per slot, the set not skippable after the test); loop-carried state of the bank loop; nondeterminism-source census (rand/time/thread/env/pointer casts) in the event closure; faer Parallelism::None.",
                 note="Bit-for-bit float reproducibility given identical operation order is a hardware/libm property (trusted).",
